@@ -12,7 +12,7 @@
    reference semantics statement by statement: if Spec/Sem.run says the run reaches END with variable store V, the VM stops
    (EvStopped) with variable store V; if it says error c, the VM reports error c (C01_compiled_program_follows_semantics;
    the statement-level simulation is C01_statement_simulation).  The parser's own line-number literals meet the premise on
-   branch targets (C01_line_literal_ok, all 65530 of them); Proofs/Flow4.v holds a parsed program that meets every premise.
+   branch targets (C01_line_literal_ok: every line number 0..65529, from Flocq's specification of binary32); Proofs/Flow4.v holds a parsed program that meets every premise.
    What is NOT proved: the same for GOSUB/RETURN, FOR/NEXT, WHILE/WEND, IF, arrays, function calls, TRON, and the line
    number attached to an error.  There the deciding work is the differential run of generated programs against Spec/Sem.v. *)
 From BL Require Import Base.Prelude Mach.Val Mach.Func Mach.Var Lang.Token Lang.Ast Mach.Compile Mach.Runtime Spec.Sem Proofs.Slicing Proofs.ExprCompile.
@@ -179,7 +179,8 @@ Proof. exact final_keeps. Qed.
 Print Assumptions C01_linking_keeps_code.
 
 (* the parser writes the target n of a branch as the Single f32_of_Z n: the compiler's reading of that literal and the
-   reference reading both give n, for every line number there is *)
+   reference reading both give n, for every line number there is (Proofs/LineLit.v: exact conversion, floor, comparison
+   and truncation of binary32 integers below 2^24, from Flocq's correctness theorems -- no enumeration) *)
 Theorem C01_line_literal_ok : forall n, n <= 65529 ->
   target_is (Floats.f32_of_Z (Z.of_N n)) n /\ Z.to_N (Floats.f32_to_Z (Floats.f32_of_Z (Z.of_N n))) = n.
 Proof. exact line_literal_ok. Qed.
